@@ -57,7 +57,7 @@ fn place(loc: usize, service: f64, windows: &[(f64, f64)]) -> PlaceT {
     PlaceT { loc, service, windows: windows.to_vec() }
 }
 
-/// Task templates. Jobs: 0..=9 singles, job 10 = multi (t10, t11), job 11 = multi (t12, t13).
+/// Task templates. Jobs: 0..=9 and 12 singles, job 10 = multi (mp, md), job 11 = multi (np, nd).
 pub fn tasks() -> Vec<TaskT> {
     use DemandKind::*;
     let t = |id, demand, places: Vec<PlaceT>, job, value| TaskT { id, demand, places, job, value };
@@ -76,6 +76,8 @@ pub fn tasks() -> Vec<TaskT> {
         t("md", DynDelivery(1), vec![place(3, 0., &[(0., MAXT)])], 10, 4.),
         t("np", DynPickup(1), vec![place(2, 0., &[(0., 12.)])], 11, 0.),
         t("nd", DynDelivery(1), vec![place(1, 5., &[(20., 30.)])], 11, 0.),
+        // first window lies completely behind the end of every closed shift, the second one is usable
+        t("s3", None, vec![place(1, 0., &[(2000., 3000.), (0., 50.)])], 12, 0.),
     ]
 }
 
